@@ -30,6 +30,15 @@ pub const BIG_SEARCH_FENS: [&str; 4] = [
     "6k1/5pp1/8/3q4/3Q4/8/5PP1/6K1 w - - 0 1",
 ];
 
+/// Bare-king endings a few moves from mate (depth 5 sees mates of several lengths).
+pub const MATING_FENS: [&str; 5] = [
+    "7k/8/5K2/8/8/8/8/3Q4 w - - 0 1",
+    "k7/8/1K6/8/8/8/8/7R w - - 0 1",
+    "8/8/8/8/8/2kq4/8/K7 b - - 0 1",
+    "6k1/8/5K2/8/8/8/8/R6R w - - 0 1",
+    "8/8/8/7r/6r1/1k6/8/K7 b - - 0 1",
+];
+
 static LARGEST_SEARCH: AtomicU64 = AtomicU64::new(0);
 
 #[derive(Clone, Debug, PartialEq)]
@@ -63,7 +72,12 @@ pub fn gen_plan(property: &str, seed: u64, index: u64, tier: Tier) -> Plan {
             let mode = rng.below(10);
             let depth: u8;
             let mut big = false;
-            if mix(seed, index, 0x4247) % 8 == 0 {
+            if mix(seed, index, 0x4d41) % 10 == 0 {
+                // near-mate endings searched deep: several forced mates of different length below the root
+                start = Pos::from_fen(*rng.pick(&MATING_FENS[..])).unwrap();
+                depth = 5;
+                scenario = "mating-ending-deep";
+            } else if mix(seed, index, 0x4247) % 8 == 0 {
                 // big search: > 10^5 positions in one context (depth 5 on an ending, warmed by earlier
                 // searches), so that whatever accumulates in the shared state really accumulates
                 start = Pos::from_fen(*rng.pick(&BIG_SEARCH_FENS[..])).unwrap();
@@ -88,7 +102,7 @@ pub fn gen_plan(property: &str, seed: u64, index: u64, tier: Tier) -> Plan {
                 scenario = "middlegame";
             }
             knobs.insert("depth".into(), depth as i64);
-            knobs.insert("iterations".into(), if big { if thorough { 6 } else { 3 } } else if thorough { if depth >= 5 { 8 } else { 40 } } else { 10 });
+            knobs.insert("iterations".into(), if big { if thorough { 6 } else { 3 } } else if thorough { if depth >= 5 { 8 } else { 40 } } else if depth >= 5 { 6 } else { 10 });
             // initial cache contents: empty, or warmed by 0..3 earlier searches run sequentially
             let warm = if big { 2 } else { rng.below(4) };
             let mut pos = start.clone();
